@@ -90,6 +90,7 @@ type ChanObj struct {
 	Closed      bool
 	ID          int
 	recvWaiting int
+	lastTaken   *chanItem
 	Timer       bool // a time.After channel
 }
 
